@@ -46,80 +46,94 @@ func ruleGRDstats(w *World, r *Report) {
 		return ok && nt.Obj().Name() == "PostingList"
 	}
 	n := 0
+	// a phase of an operation that is a function of its own (unexported, called by that operation only) is read as part of
+	// the operation: "removes the postings" and "removes the statistics" may be two such phases of DeleteMetadata
+	isPhase := map[*types.Func]bool{}
 	for _, fi := range w.ModuleFuncs() {
-		if relPkg(fi.Obj) != "pkg/core" || fi.Decl.Body == nil {
+		if relPkg(fi.Obj) == "pkg/core" && fi.Decl.Body != nil {
+			for _, h := range w.helperDecls(fi) {
+				isPhase[h.Obj] = true
+			}
+		}
+	}
+	for _, fi := range w.ModuleFuncs() {
+		if relPkg(fi.Obj) != "pkg/core" || fi.Decl.Body == nil || isPhase[fi.Obj] {
 			continue
 		}
 		u := statsUse{pos: fi.Decl.Pos()}
 		var hadGuards []*ast.IfStmt
-		ast.Inspect(fi.Decl.Body, func(m ast.Node) bool {
-			switch x := m.(type) {
-			case *ast.IfStmt:
-				if x.Init != nil {
-					if as, ok := x.Init.(*ast.AssignStmt); ok && len(as.Rhs) == 1 {
-						if ix, ok := as.Rhs[0].(*ast.IndexExpr); ok {
-							if sel, ok := ix.X.(*ast.SelectorExpr); ok && sel.Sel.Name == "DocLengths" {
-								// "was counted" = the entry EXISTS (comma-ok form, condition is the ok variable); a test
-								// on the stored length treats a counted document of length 0 as never counted
-								if len(as.Lhs) == 2 {
-									if okId, isId := as.Lhs[1].(*ast.Ident); isId {
-										if c, isC := x.Cond.(*ast.Ident); isC && c.Name == okId.Name {
-											hadGuards = append(hadGuards, x)
+		bodies := []*FuncInfo{fi}
+		bodies = append(bodies, w.helperDecls(fi)...)
+		for _, bd := range bodies {
+			ast.Inspect(bd.Decl.Body, func(m ast.Node) bool {
+				switch x := m.(type) {
+				case *ast.IfStmt:
+					if x.Init != nil {
+						if as, ok := x.Init.(*ast.AssignStmt); ok && len(as.Rhs) == 1 {
+							if ix, ok := as.Rhs[0].(*ast.IndexExpr); ok {
+								if sel, ok := ix.X.(*ast.SelectorExpr); ok && sel.Sel.Name == "DocLengths" {
+									// "was counted" = the entry EXISTS (comma-ok form, condition is the ok variable); a test
+									// on the stored length treats a counted document of length 0 as never counted
+									if len(as.Lhs) == 2 {
+										if okId, isId := as.Lhs[1].(*ast.Ident); isId {
+											if c, isC := x.Cond.(*ast.Ident); isC && c.Name == okId.Name {
+												hadGuards = append(hadGuards, x)
+											}
 										}
 									}
 								}
 							}
 						}
 					}
-				}
-			case *ast.AssignStmt:
-				for _, l := range x.Lhs {
-					if ix, ok := l.(*ast.IndexExpr); ok {
-						if sel, ok := ix.X.(*ast.SelectorExpr); ok && sel.Sel.Name == "DocLengths" {
-							u.setsDocLen = true
-						}
-					}
-					if sel, ok := l.(*ast.SelectorExpr); ok {
-						switch sel.Sel.Name {
-						case "TotalDocs":
-							u.totalDocs = true
-						case "TotalDocLength":
-							u.totalLen = true
-						case "AvgFieldLength":
-							u.avgLen = true
-						}
-					}
-					if isPostingMapElem(l) {
-						// appending a PostingEntry = adding; assigning a filtered list = removing
-						if c, ok := x.Rhs[0].(*ast.CallExpr); ok {
-							if id, ok := c.Fun.(*ast.Ident); ok && id.Name == "append" {
-								u.addsPosting = true
-								continue
+				case *ast.AssignStmt:
+					for _, l := range x.Lhs {
+						if ix, ok := l.(*ast.IndexExpr); ok {
+							if sel, ok := ix.X.(*ast.SelectorExpr); ok && sel.Sel.Name == "DocLengths" {
+								u.setsDocLen = true
 							}
 						}
-						u.removesPostingsOfNode = true
+						if sel, ok := l.(*ast.SelectorExpr); ok {
+							switch sel.Sel.Name {
+							case "TotalDocs":
+								u.totalDocs = true
+							case "TotalDocLength":
+								u.totalLen = true
+							case "AvgFieldLength":
+								u.avgLen = true
+							}
+						}
+						if isPostingMapElem(l) {
+							// appending a PostingEntry = adding; assigning a filtered list = removing
+							if c, ok := x.Rhs[0].(*ast.CallExpr); ok {
+								if id, ok := c.Fun.(*ast.Ident); ok && id.Name == "append" {
+									u.addsPosting = true
+									continue
+								}
+							}
+							u.removesPostingsOfNode = true
+						}
 					}
-				}
-			case *ast.IncDecStmt:
-				if sel, ok := x.X.(*ast.SelectorExpr); ok && sel.Sel.Name == "TotalDocs" {
-					u.totalDocs = true
-					if x.Tok == token.DEC {
-						for _, g := range hadGuards {
-							if nodeContains(g.Body, x) {
-								u.decGuardedByHad = true
+				case *ast.IncDecStmt:
+					if sel, ok := x.X.(*ast.SelectorExpr); ok && sel.Sel.Name == "TotalDocs" {
+						u.totalDocs = true
+						if x.Tok == token.DEC {
+							for _, g := range hadGuards {
+								if nodeContains(g.Body, x) {
+									u.decGuardedByHad = true
+								}
 							}
 						}
 					}
-				}
-			case *ast.CallExpr:
-				if id, ok := x.Fun.(*ast.Ident); ok && id.Name == "delete" && len(x.Args) == 2 {
-					if sel, ok := x.Args[0].(*ast.SelectorExpr); ok && sel.Sel.Name == "DocLengths" {
-						u.delsDocLen = true
+				case *ast.CallExpr:
+					if id, ok := x.Fun.(*ast.Ident); ok && id.Name == "delete" && len(x.Args) == 2 {
+						if sel, ok := x.Args[0].(*ast.SelectorExpr); ok && sel.Sel.Name == "DocLengths" {
+							u.delsDocLen = true
+						}
 					}
 				}
-			}
-			return true
-		})
+				return true
+			})
+		}
 		if !(u.setsDocLen || u.delsDocLen || u.removesPostingsOfNode) {
 			continue
 		}
@@ -158,11 +172,19 @@ func ruleGRDstats(w *World, r *Report) {
 					lk, ok := in.(*ssa.Lookup)
 					return ok && lk.CommaOk && mapFieldOf(lk.X) == "DocLengths"
 				}
-				decs := findInstrs(fn, isDec)
-				all := len(decs) > 0 && len(findInstrs(fn, isHad)) > 0
+				var decs []ssa.Instruction
+				all := true
+				for _, f := range append([]*ssa.Function{fn}, w.extractedHelpers(fn)...) {
+					ds := findInstrs(f, isDec)
+					decs = append(decs, ds...)
+					if len(ds) > 0 && len(findInstrs(f, isHad)) == 0 {
+						all = false
+					}
+				}
+				all = all && len(decs) > 0
 				for _, d := range decs {
 					dd := d
-					if ok, _ := mustPassGuard(fn, func(in ssa.Instruction) bool { return in == dd }, isHad, func(in ssa.Instruction) ssa.Value { return extractOfValue(in.(*ssa.Lookup), 1) }, true, nil); !ok {
+					if ok, _ := mustPassGuard(dd.Parent(), func(in ssa.Instruction) bool { return in == dd }, isHad, func(in ssa.Instruction) ssa.Value { return extractOfValue(in.(*ssa.Lookup), 1) }, true, nil); !ok {
 						all = false
 					}
 				}
@@ -227,7 +249,80 @@ func ruleGRDfusion(w *World, r *Report) {
 		}
 	}
 	if alpha == nil {
-		r.Und("GRD-fusion", "searchWithFusion:alpha", w.Pos(fi.Decl.Pos()), "no alpha parameter")
+		// the arguments travel in a parameter record: alpha is its field. A field lives in memory, so the clamp is a
+		// conditional store of a constant into it; every arithmetic use must be dominated by the test that guards that store
+		var clampTests []*ssa.BasicBlock
+		for _, b := range fn.Blocks {
+			for _, in := range b.Instrs {
+				st, ok := in.(*ssa.Store)
+				if !ok {
+					continue
+				}
+				fa, ok := st.Addr.(*ssa.FieldAddr)
+				if !ok || paramRecordBase(fa.X) == nil {
+					continue
+				}
+				if _, f := structFieldName(fa.X.Type(), fa.Field); f != "alpha" {
+					continue
+				}
+				if _, isConst := st.Val.(*ssa.Const); !isConst {
+					continue
+				}
+				// the store's block is entered from a test of the field
+				for d := b; d != nil; d = d.Idom() {
+					p := d.Idom()
+					if p == nil {
+						break
+					}
+					if iff, ok := p.Instrs[len(p.Instrs)-1].(*ssa.If); ok {
+						if bo, ok := iff.Cond.(*ssa.BinOp); ok && (paramFieldRead(bo.X, "alpha") || paramFieldRead(bo.Y, "alpha")) {
+							// the first test of the (short-circuit) range check dominates everything behind the clamp
+							top := p
+							for q := p.Idom(); q != nil; q = q.Idom() {
+								if i2, ok := q.Instrs[len(q.Instrs)-1].(*ssa.If); ok {
+									if b2, ok := i2.Cond.(*ssa.BinOp); ok && (paramFieldRead(b2.X, "alpha") || paramFieldRead(b2.Y, "alpha")) {
+										top = q
+										continue
+									}
+								}
+								break
+							}
+							clampTests = append(clampTests, top)
+						}
+					}
+				}
+			}
+		}
+		raw, clamped := 0, 0
+		for _, b := range fn.Blocks {
+			for _, in := range b.Instrs {
+				bo, ok := in.(*ssa.BinOp)
+				if !ok || (bo.Op != token.MUL && bo.Op != token.SUB) {
+					continue
+				}
+				for _, op := range []ssa.Value{bo.X, bo.Y} {
+					if !paramFieldRead(op, "alpha") {
+						continue
+					}
+					dom := false
+					for _, ct := range clampTests {
+						if ct != b && ct.Dominates(b) {
+							dom = true
+						}
+					}
+					if dom {
+						clamped++
+					} else {
+						raw++
+					}
+				}
+			}
+		}
+		if raw+clamped == 0 {
+			r.Und("GRD-fusion", "searchWithFusion:alpha", w.Pos(fi.Decl.Pos()), "no alpha parameter")
+		} else {
+			r.Cond(raw == 0 && clamped >= 2, "GRD-fusion", "searchWithFusion:alpha-clamped", w.Pos(fi.Decl.Pos()), "alpha is used only after the [0,1] clamp", fmt.Sprintf("alpha is used in the fusion arithmetic without passing the clamp (raw uses %d, clamped uses %d): an out-of-range alpha gives negative weights", raw, clamped))
+		}
 	} else {
 		raw := 0
 		clamped := 0
@@ -739,45 +834,89 @@ func ruleGRDreinforce(w *World, r *Report) {
 		r.Und("GRD-reinforce", "anchor:VReinforce", "", "anchor lost")
 		return
 	}
-	info := fi.Pkg.TypesInfo
+	top := w.SSAFunc(fi.Obj)
 	plusOne, now := false, false
-	ast.Inspect(fi.Decl.Body, func(m ast.Node) bool {
-		as, ok := m.(*ast.AssignStmt)
-		if !ok || len(as.Lhs) != 1 {
-			return true
+	// a value of VReinforce or — through a parameter of a helper extracted from it — of its call sites
+	var leavesUp func(f *ssa.Function, v ssa.Value, depth int) []ssa.Value
+	leavesUp = func(f *ssa.Function, v ssa.Value, depth int) []ssa.Value {
+		var out []ssa.Value
+		for _, l := range arithLeaves(v, 0) {
+			p := capturedParam(l)
+			if p == nil || p.Parent() == top || p.Parent().Parent() != nil || depth > 2 {
+				out = append(out, l)
+				continue
+			}
+			idx := -1
+			for i, hp := range p.Parent().Params {
+				if hp == p {
+					idx = i
+				}
+			}
+			sites := callSitesOf(top, p.Parent())
+			for _, h := range w.extractedHelpers(top) {
+				if h != p.Parent() {
+					sites = append(sites, callSitesOf(h, p.Parent())...)
+				}
+			}
+			if idx < 0 || len(sites) == 0 {
+				out = append(out, l)
+				continue
+			}
+			for _, cs := range sites {
+				if idx < len(cs.Call.Args) {
+					out = append(out, leavesUp(cs.Parent(), cs.Call.Args[idx], depth+1)...)
+				}
+			}
 		}
-		ix, ok := as.Lhs[0].(*ast.IndexExpr)
-		if !ok {
-			return true
-		}
-		tv := info.Types[ix.Index]
-		if tv.Value == nil || tv.Value.Kind() != constant.String {
-			return true
-		}
-		switch constant.StringVal(tv.Value) {
-		case "_access_count":
-			// rhs is an identifier defined as  x + 1
-			if id, ok := as.Rhs[0].(*ast.Ident); ok {
-				ast.Inspect(fi.Decl.Body, func(k ast.Node) bool {
-					if d, ok := k.(*ast.AssignStmt); ok && len(d.Lhs) == 1 {
-						if l, ok := d.Lhs[0].(*ast.Ident); ok && l.Name == id.Name {
-							if be, ok := d.Rhs[0].(*ast.BinaryExpr); ok && be.Op == token.ADD {
-								if v := info.Types[be.Y]; v.Value != nil && v.Value.ExactString() == "1" {
-									plusOne = true
+		return out
+	}
+	for _, f := range append(append([]*ssa.Function{top}, closuresOf(top)...), w.extractedHelpers(top)...) {
+		for _, b := range f.Blocks {
+			for _, in := range b.Instrs {
+				mu, ok := in.(*ssa.MapUpdate)
+				if !ok {
+					continue
+				}
+				k, ok := mu.Key.(*ssa.Const)
+				if !ok || k.Value == nil || k.Value.Kind() != constant.String {
+					continue
+				}
+				switch constant.StringVal(k.Value) {
+				case "_access_count":
+					v := mu.Value
+					if mi, ok := v.(*ssa.MakeInterface); ok {
+						v = mi.X
+					}
+					if bo, ok := v.(*ssa.BinOp); ok && bo.Op == token.ADD {
+						for _, side := range []ssa.Value{bo.X, bo.Y} {
+							if c, ok := side.(*ssa.Const); ok && c.Value != nil && (c.Value.ExactString() == "1") {
+								plusOne = true
+							}
+						}
+					}
+				case "_last_accessed":
+					for _, l := range leavesUp(f, mu.Value, 0) {
+						if ex, ok := l.(*ssa.Extract); ok {
+							l = ex.Tuple
+						}
+						if c, ok := l.(*ssa.Call); ok {
+							if o := calleeObj(&c.Call); o != nil && o.Pkg() != nil && o.Pkg().Path() == "time" {
+								// Unix()/UnixNano()/… of a time.Now()
+								if len(c.Call.Args) > 0 {
+									if nc, ok := c.Call.Args[0].(*ssa.Call); ok && isCallTo(nc, "time", "Now") {
+										now = true
+									}
+								}
+								if isCallTo(c, "time", "Now") {
+									now = true
 								}
 							}
 						}
 					}
-					return true
-				})
-			}
-		case "_last_accessed":
-			if id, ok := as.Rhs[0].(*ast.Ident); ok && id.Name == "now" {
-				now = true
+				}
 			}
 		}
-		return true
-	})
+	}
 	r.Cond(plusOne, "GRD-reinforce", "VReinforce:count+1", w.Pos(fi.Decl.Pos()), "_access_count = previous + 1", "VReinforce no longer stores previous count + 1 into _access_count")
 	r.Cond(now, "GRD-reinforce", "VReinforce:last-accessed=now", w.Pos(fi.Decl.Pos()), "_last_accessed = now", "VReinforce no longer moves _last_accessed to the current time")
 }
